@@ -148,12 +148,18 @@ class ContentE3(C03.E3):
             return [(self.put(w2, v, loc[0], loc[1]), v) for w2, v in out]
         if name == 'rev' and args and args[0][0] == 'iterv':
             return [(self.add(w2, _mk('rev', (repr(v),))), v) for w2, v in out]
-        if name == 'position' and args:
+        if name in ('position', 'rposition') and args:
             it = args[0]
             if it[0] == 'ref':
                 it = I.read(w, it[1])
             loc = self.where(w, it)
+            # search mode: False = first match, index from the start; True = `rev().position()`: last match, distance from
+            # the end; 'rpos' = `rposition()`: last match, index from the start
             rev = any(m[0] == repr(it) for m in markers(w, 'rev'))
+            if name == 'rposition':
+                rev = 'first-from-start' if rev else 'rpos'
+                if rev == 'first-from-start':
+                    rev = False
             pred = C03.searched_pred(I, args[1]) if len(args) > 1 else None
             # the found position holds b ('eq' predicate) or is the first that does not hold b (('ne', b))
             byte = None if not pred else (pred[0] if pred[1] == 'eq' else ('ne', pred[0]))
@@ -421,6 +427,19 @@ def fmt_src(s):
 
 def fmt_segs(segs):
     return " ".join("[%s, %s)=%s" % (fmt(a), fmt(b), fmt_src(s)) for a, b, s in segs) or '(empty)'
+
+
+def found_index(m):
+    """absolute index of the byte a recorded search found; m = (atom, base, off, len, byte, mode)"""
+    at, base, off, ln, byte, mode = m
+    if mode is True:
+        return fm.add(fm.add(off, ln), fm.add(fm.lin_atom(at), fm.lin_const(1)), -1)
+    return fm.add(off, fm.lin_atom(at))
+
+
+def from_end(m):
+    """does the search return the match nearest to the end of the slice?"""
+    return m[5] in (True, 'rpos')
 
 
 def effects_of(w):
